@@ -82,9 +82,21 @@ func constStr(c *ssa.Const) string {
 	return c.Value.String()
 }
 
+// termAlias lets a rule give short names to long sub-terms (typically call results) while it
+// evaluates; consulted before the structural rendering.
+var termAlias = map[ssa.Value]string{}
+
+func alias(v ssa.Value, name string) func() {
+	termAlias[v] = name
+	return func() { delete(termAlias, v) }
+}
+
 func (t *termer) val(v ssa.Value) string {
 	if v == nil {
 		return "_"
+	}
+	if a, ok := termAlias[v]; ok {
+		return a
 	}
 	t.depth++
 	defer func() { t.depth-- }()
